@@ -130,6 +130,27 @@ class Goals:
 
 
 # ------------------------------------------------------------------------------------------------
+def run_scenario(fn, B, G, kwargs):
+    """runs the scenario; an exception that surfaces from QuCumber's own code (not from the shim's 'cannot encode'
+    signals) is recorded as the failed fact `no_library_exception`, so that it is replayed on the real torch"""
+    try:
+        fn(B, G, **kwargs)
+    except Exception as e:  # noqa: BLE001
+        if type(e).__name__ in ("UnsupportedOp", "SymbolicTruthValue", "Unsupported", "Inconclusive"):
+            raise
+        tb = traceback.extract_tb(e.__traceback__)
+        lib = [fr for fr in tb if "/qucumber/" in fr.filename]
+        if not lib:
+            raise
+        where = "%s:%d" % (lib[-1].filename.split("/qucumber/")[-1], lib[-1].lineno)
+        if "no_library_exception" not in G.keys:
+            G.fact("no_library_exception", False, "%s: %s (raised under %s)" % (type(e).__name__, e, where))
+        return False
+    if "no_library_exception" not in G.keys:
+        G.fact("no_library_exception", True, "")
+    return True
+
+
 def _load_scenario(modname, fname):
     mod = importlib.import_module(modname)
     return getattr(mod, fname)
@@ -154,7 +175,7 @@ def _worker(job):
         G = Goals(B, prob)
         fn = _load_scenario(modname, fname)
         t1 = time.time()
-        fn(B, G, **kwargs)
+        run_scenario(fn, B, G, kwargs)
         t_exec = time.time() - t1
         prob.twin_names = set(G.twins)
         results = prob.solve() + G.custom
